@@ -11,7 +11,7 @@ raw case (what Hypothesis generates, index based so that every reference is vali
 
 Concrete member nodes
     {"k": "func", "name", "sig", "doc"}              def name(sig): <docstring "doc N">
-    {"k": "attr", "name", "val"}                     name = val
+    {"k": "attr", "name", "val"}                     name = val   (val: source text from VALUES)
     {"k": "cls",  "name", "bases": [names], "doc", "body": [func|attr|nested cls nodes]}
     {"k": "star", "name": "*<src with />", "src"}     from src import *     (expanded by Pkg into virtual "imp" entities)
 Module: {"pkg", "doc", "all": None | [names] (may be EMPTY: declared, exports nothing), "all_form", "all_src", "body"}
@@ -31,6 +31,29 @@ NEST_NAMES = ("N", "_H")
 ALIAS_NAMES = ("a1", "a2", "_a3", "s1", "s2")
 FUNC_SIGS = ("", "a", "a, b=1", "a, *args", "a, **kw", "*, k=1", "a, /, b=2", "a, b=1, *, k=2")
 METH_SIGS = ("self", "self, a", "self, a=1", "self, *args, **kw", "self, a, *, k=1")
+# attribute values (source text): literals are stored by Griffe as strings, everything else as expression objects
+VALUES = (
+    "0", "1", "2", "3", "'memory'", "None", "True", "30",            # constants
+    "-1", "1 + 2", "not 0",                                           # operators
+    "[3]", "[]", "(1, 2)", "{'k': 1}", "{3}", "[3, [4]]",             # containers
+    "int('30')", "dict(a=1)", "max(30, 3)", "int('3')",               # calls
+    "len", "int", "NotImplemented",                                   # names
+    "str.lower", "object.__name__", "int.real.__doc__",               # attribute chains
+    "sorted([3]).copy()", "[x for x in (1, 2)]", "lambda: 0", "(1, 2)[0]", "3 if True else 4",
+)  # fmt: skip
+
+
+def value_text(index: int) -> str:
+    return VALUES[index % len(VALUES)]
+
+
+def value_nature(text: str) -> str:
+    """'lit' (a constant: Griffe keeps its repr as a string) or 'expr' (kept as an expression object)."""
+    import ast
+
+    return "lit" if isinstance(ast.parse(text, mode="eval").body, ast.Constant) else "expr"
+
+
 EXT_MOD = "ext_missing_zz"
 DYN_NAME = "zz_dyn"
 
@@ -259,7 +282,7 @@ def _concrete(rmem: dict, p: str, order: list[str], named: dict, children: dict)
     if k == "func":
         return {"k": "func", "name": _raw_name(rmem), "sig": FUNC_SIGS[rmem.get("sig", 0) % len(FUNC_SIGS)], "doc": rmem.get("doc", 0)}
     if k == "attr":
-        return {"k": "attr", "name": _raw_name(rmem), "val": rmem.get("val", 0)}
+        return {"k": "attr", "name": _raw_name(rmem), "val": value_text(rmem.get("val", 0))}
     def class_body(raw_body: list) -> list:
         body = []
         seen = set()
@@ -278,7 +301,7 @@ def _concrete(rmem: dict, p: str, order: list[str], named: dict, children: dict)
             if rm["k"] == "meth":
                 body.append({"k": "func", "name": nm, "sig": METH_SIGS[rm.get("sig", 0) % len(METH_SIGS)], "doc": rm.get("doc", 0)})
             else:
-                body.append({"k": "attr", "name": nm, "val": rm.get("val", 0)})
+                body.append({"k": "attr", "name": nm, "val": value_text(rm.get("val", 0))})
         return body
 
     if k == "cls":
@@ -350,7 +373,7 @@ def _render_member(m: dict, indent: str = "", where: tuple[str, bool] | None = N
         out.append(f"{indent}    return {m.get('doc', 0)}")
         return out
     if k == "attr":
-        return [f"{indent}{m['name']} = {m['val']!r}"]
+        return [f"{indent}{m['name']} = {m['val']}"]
     if k == "star":
         return [f"{indent}from {m['src']} import *"]
     if k == "imp":
@@ -957,7 +980,7 @@ class Editor:
         if nk == "func":
             repl = {"k": "func", "name": name, "sig": "self" if in_class else "", "doc": 0}
         elif nk == "attr":
-            repl = {"k": "attr", "name": name, "val": 7}
+            repl = {"k": "attr", "name": name, "val": value_text(edit.get("val", 3))}
         else:
             repl = {"k": "cls", "name": name, "bases": [], "doc": 0, "body": []}
         body = self._container_body(parent)
@@ -973,10 +996,17 @@ class Editor:
         if e is None:
             return None
         node = self._node(e)
-        node["val"] = node["val"] + 10 + edit.get("arg", 0) % 3
+        # the new value is drawn independently of the old one (constant <-> expression both ways, expression -> other
+        # expression, constant -> other constant); equal texts are stepped to the next pool entry
+        old_text = node["val"]
+        idx = edit.get("val", edit.get("arg", 0) + 1)
+        while value_text(idx) == old_text:
+            idx += 1
+        node["val"] = value_text(idx)
+        nature = f"{value_nature(old_text)}>{value_nature(node['val'])}"
         self.pinned.add(e)
         self.done.add(("chvalue", e))
-        return {"ent": e, "loc": self.loc_class(e)}
+        return {"ent": e, "loc": self.loc_class(e), "nature": nature}
 
     def _op_rmbase(self, edit):
         cands = [
@@ -1038,7 +1068,7 @@ class Editor:
         return self._add_to_module(edit, {"k": "func", "name": self._fresh("zf"), "sig": FUNC_SIGS[edit.get("arg", 0) % len(FUNC_SIGS)], "doc": 1})
 
     def _op_add_attr(self, edit):
-        return self._add_to_module(edit, {"k": "attr", "name": self._fresh("zv"), "val": 5})
+        return self._add_to_module(edit, {"k": "attr", "name": self._fresh("zv"), "val": value_text(edit.get("arg", 0))})
 
     def _op_add_cls(self, edit):
         body = [{"k": "func", "name": "zm", "sig": "self", "doc": 0}]
@@ -1052,7 +1082,7 @@ class Editor:
         if edit.get("flag", True):
             new = {"k": "func", "name": self._fresh("zm"), "sig": "self", "doc": 0}
         else:
-            new = {"k": "attr", "name": self._fresh("zx"), "val": 3}
+            new = {"k": "attr", "name": self._fresh("zx"), "val": value_text(edit.get("arg", 0))}
         node["body"].insert(edit.get("arg", 0) % (len(node["body"]) + 1), new)
         self.pinned.add(c)
         return {"ent": f"{c}.{new['name']}", "loc": "added", "into": self.loc_class(c)}
